@@ -1,7 +1,7 @@
 """Per-property and per-suite configuration of the orchestrator."""
 
 # .vo files Extract.v depends on (built before extraction)
-EXTRACT_DEPS = ['Codec/FilterCase.vo', 'Agent/ReasmRs.vo', 'Agent/Model.vo', 'Agent/Monitors.vo', 'Codec/WireMon.vo', 'Codec/EncodeMsg.vo', 'Proofs/ArcHeapProofs.vo', 'Codec/AttrValue.vo', 'Codec/WireFull.vo', 'Codec/Message.vo', 'Codec/Keys.vo', 'Codec/Ignored.vo']
+EXTRACT_DEPS = ['Codec/FilterCase.vo', 'Agent/ReasmRs.vo', 'Agent/Model.vo', 'Agent/Monitors.vo', 'Codec/WireMon.vo', 'Codec/EncodeMsg.vo', 'Proofs/ArcHeapProofs.vo', 'Codec/AttrValue.vo', 'Codec/WireFull.vo', 'Codec/Message.vo', 'Codec/Keys.vo', 'Codec/Ignored.vo', 'Agent/AbsGlue.vo']
 
 SUITES = {
     'attrval': dict(bin='attrval', nontrivial=r'^C [DE] '),
@@ -9,6 +9,8 @@ SUITES = {
     'filter': dict(bin='filter', nontrivial=r'^C \S+ \S*[MSF]\S*[OMSF]'),
     # non-trivial: at least two chunks
     'agent': dict(bin='agent', nontrivial=r'^H '),
+    # the harness' byte <-> abstract-message glue against the Gallina abstraction function (AbsGlue.abs_packet)
+    'absglue': dict(bin='agent', driver='absglue', args=['--glue', '1'], nontrivial=r'^C P \S+ \S+ .*[0-9a-f]{60}'),
     'wire': dict(bin='wire', nontrivial=r'^C (F |\S+ \S{48})'),
     'encbuf': dict(bin='encbuf', nontrivial=r'^C \d+ \d \S+ \d+ \S+ [pmsf]'),
     'encbuf-release': dict(bin='encbuf', driver='encbuf', release=True, nontrivial=r'^C \d+ \d \S+ \d+ \S+ [pmsf]'),
@@ -24,7 +26,7 @@ AGENT_RULE = ('suite agent: random histories (8-60 operations) of a StunClient o
     'and hook snapshot compared with the model; distinct = distinct histories, every history is non-trivial')
 AGENT_ASSUME = ['transaction ids drawn by the implementation are pairwise distinct (checked by the harness, not proved)',
                 'instants passed to the client are monotone',
-                'abstract-message level: the harness crafts real packets from abstract descriptions and reads emitted packets back with its own TLV walk, HMAC and CRC']
+                'abstract-message level: the harness crafts real packets from abstract descriptions and reads emitted packets back with its own TLV walk, HMAC and CRC; for C07, C08 and C13 this glue is checked on every run against the Gallina abstraction function AbsGlue.abs_packet (suite absglue: sampled sent and crafted packets, byte-level HMAC / CRC / key derivation / nonce-cookie models)']
 
 WIRE_RULE = ('suite wire: buffers = messages crafted by the harness (unknown-type attributes of lengths 0-24, every legal and illegal '
     'arrangement of MESSAGE-INTEGRITY / SHA256 / FINGERPRINT tails with correct or corrupted values), their mutations (bit flips, truncation, '
@@ -75,11 +77,11 @@ PROPS = {
         assumptions=['external crates (PRECIS tables, pest runtime, base64, hash crates) are total functions in the model'],
     ),
     'C06': dict(suites=['agent'], monitors=['C06'], rule=AGENT_RULE, assumptions=AGENT_ASSUME + []),
-    'C07': dict(suites=['agent'], monitors=['C07'], rule=AGENT_RULE, assumptions=AGENT_ASSUME + []),
-    'C08': dict(suites=['agent'], monitors=['C08'], rule=AGENT_RULE, assumptions=AGENT_ASSUME + []),
+    'C07': dict(suites=['agent', 'absglue'], monitors=['C07'], rule=AGENT_RULE, assumptions=AGENT_ASSUME + []),
+    'C08': dict(suites=['agent', 'absglue'], monitors=['C08'], rule=AGENT_RULE, assumptions=AGENT_ASSUME + []),
     'C11': dict(suites=['agent'], monitors=['C11'], rule=AGENT_RULE, assumptions=AGENT_ASSUME + ['the controller eventually fires the timer it armed (environment assumption)']),
     'C12': dict(suites=['agent'], monitors=['C12'], rule=AGENT_RULE, assumptions=AGENT_ASSUME + []),
-    'C13': dict(suites=['agent'], monitors=['C13'], rule=AGENT_RULE, assumptions=AGENT_ASSUME + []),
+    'C13': dict(suites=['agent', 'absglue'], monitors=['C13'], rule=AGENT_RULE, assumptions=AGENT_ASSUME + []),
     'C17': dict(suites=['agent'], monitors=['C17'], rule=AGENT_RULE, assumptions=AGENT_ASSUME + []),
     'C04': dict(suites=['wire'], monitors=['C04acc', 'C04fault', 'C04key'], rule=WIRE_RULE, assumptions=WIRE_ASSUME),
     'C10': dict(suites=['wire', 'agent'], monitors=['C10acc', 'C10fault', 'C10'], rule=WIRE_RULE + ' + ' + AGENT_RULE, assumptions=WIRE_ASSUME + AGENT_ASSUME),
